@@ -4,6 +4,7 @@ import PyAirtouch.Model.SockValidate
 import PyAirtouch.Model.SockXValidate
 import PyAirtouch.Model.Heartbeat
 import PyAirtouch.Model.HeartbeatX
+import PyAirtouch.Model.Session
 import PyAirtouch.Model.Codecs
 import PyAirtouch.Model.CodecsWF
 import PyAirtouch.Model.Discovery
@@ -124,6 +125,8 @@ def answerPure (ws : List String) : String :=
       let s := Model.Heartbeat.simulateX i t rt refuse drop ins
       " ; ".intercalate (s.out.map Model.Heartbeat.XEv.toText) ++ " | " ++ " ".intercalate (s.h.expiries.map toString)
     | _, _, _, _, _, _ => "bad-op"
+  -- `Model/Session.lean`: handshake handlers suspended across shutdown() and a later init()
+  | "sess" :: which :: ops => Model.Session.answer which ops
   | _ => "bad-op"
 
 def answer (st : DState) (ws : List String) : DState × String :=
